@@ -152,6 +152,34 @@ def run(ctx):
             okb = base is not None and const_int(base[0]) == 0 and rec(0, 0)(base[1])
             ctx.check(ok and okb, "D1-SLICES", DN, "count=%s" % n, "bounds and base are the slices between the operator records",
                       "with %s operator(s) the bound texts / base are not pattern[ops[i].1 .. next operator or end] and pattern[0 .. ops[0].0]" % n, fn_span(body))
+    # every compiled bound is kept: the vector returned as `matches` is only ever pushed to, once per bound, in order
+    if paths:
+        mloc = None
+        for p in oks:
+            v = unwrap_ok(p.end[1])
+            a = agg_variant(v)
+            t = dict(zip(v[5], a[2])).get("matches")
+            if isinstance(t, tuple) and t[0] in ("havoc", "mutated"):
+                mloc = t[1]
+        bad_mut = set()
+        npush = {}
+        for p in oks:
+            k = 0
+            for e in p.events:
+                if e.kind == "call" and e.args and isinstance(e.args[0], tuple) and e.args[0][0] == "refmut" and isinstance(e.args[0][1], tuple) and e.args[0][1][:2] == ("loc", mloc):
+                    if e.name.endswith("Vec::push") and find_calls(e.args[1], "dewey::DeweyMatch::new"):
+                        k += 1
+                    else:
+                        bad_mut.add(e.name.split("::")[-1])
+            nn = None
+            for c in p.conds():
+                if ops_len(c.term) and c.fact[0] == "eq":
+                    nn = c.fact[1]
+            npush[nn] = k
+        ctx.check(mloc is not None and not bad_mut and npush.get(1) == 1 and npush.get(2) == 2, "D1-BOUNDS-KEPT", DN, "every-bound-stored",
+                  "the returned bounds are exactly the compiled ones (1 or 2 pushes, nothing removed)",
+                  "the bounds vector is also modified by %s / holds %s bounds for 1,2 operators: a compiled bound is dropped or altered, so a name no longer has to satisfy every bound (e.g. `>=0` is a real bound: 0rc1 sorts below 0)"
+                  % (sorted(bad_mut) or "-", npush), fn_span(body))
     DMN = "dewey::DeweyMatch::new"
     ps = ctx.paths(DMN)
     if ps:
